@@ -111,8 +111,17 @@ theorem pwp_ign (o : Op) (c : Resp → Prog ε α) (Q : α → PG → Prop) (E :
 def Grew (g : PG) : α → PG → Prop := fun _ g' => g.Le g'
 def GrewP (g : PG) : ε → PG → Prop := fun _ g' => g.Le g' ∧ 0 < g'.panics
 
-theorem debugLeaf_poison (x : LockId) (m : Mode) (g : PG) :
-    wp PoisonSpec (debugLeaf x m) (Grew g) (GrewP (ε := Unit) g) g := by
+/-- the user-panic mark counts as a panic -/
+theorem pwp_userPanic (c : Resp → Prog ε α) (Q : α → PG → Prop) (E : ε → PG → Prop) (g : PG)
+    (h : ∀ g', g.Le g' → 0 < g'.panics → wp PoisonSpec (c .ok) Q E g') :
+    wp PoisonSpec (.op (.mark mkUserPanic) c) Q E g := by
+  refine ⟨trivial, fun r hr => ?_⟩
+  have : r = .ok := hr
+  subst this
+  exact h _ ⟨Nat.le_succ _, fun _ h => h⟩ (Nat.succ_pos _)
+
+theorem debugLeaf_poison (x : LockId) (m : Mode) (b : Bool) (g : PG) :
+    wp PoisonSpec (debugLeaf x m b) (Grew g) (GrewP (ε := Unit) g) g := by
   unfold debugLeaf
   apply pwp_ign _ _ _ _ _ (by trivial)
   intro r g1 _ hle hp
@@ -120,12 +129,21 @@ theorem debugLeaf_poison (x : LockId) (m : Mode) (g : PG) :
   | ok =>
     apply pwp_ign _ _ _ _ _ (by trivial)
     intro r2 g2 _ hle2 _
-    apply pwp_ign _ _ _ _ _ (by trivial)
-    intro r3 g3 _ hle3 hp3
-    cases r3 with
-    | panic => exact ⟨(hle.trans hle2).trans hle3, hp3 rfl⟩
-    | ok => exact (hle.trans hle2).trans hle3
-    | no => exact (hle.trans hle2).trans hle3
+    split
+    · apply pwp_userPanic
+      intro g2' hle2' hp2'
+      apply pwp_ign _ _ _ _ _ (by trivial)
+      intro r3 g3 _ hle3 hp3
+      cases r3 with
+      | panic => trivial
+      | ok => exact ⟨((hle.trans hle2).trans hle2').trans hle3, Nat.lt_of_lt_of_le hp2' hle3.1⟩
+      | no => exact ⟨((hle.trans hle2).trans hle2').trans hle3, Nat.lt_of_lt_of_le hp2' hle3.1⟩
+    · apply pwp_ign _ _ _ _ _ (by trivial)
+      intro r3 g3 _ hle3 hp3
+      cases r3 with
+      | panic => exact ⟨(hle.trans hle2).trans hle3, hp3 rfl⟩
+      | ok => exact (hle.trans hle2).trans hle3
+      | no => exact (hle.trans hle2).trans hle3
   | no => exact hle
   | panic => exact ⟨hle, hp rfl⟩
 
@@ -135,25 +153,25 @@ theorem wp_grew_mono {p : Prog Unit Unit} {g g0 : PG} (hle : g0.Le g)
   wp_mono PoisonSpec p h (fun _ _ a => hle.trans a) (fun _ _ a => ⟨hle.trans a.1, a.2⟩)
 
 mutual
-theorem debugFmt_poison : ∀ (S : Shape) (g : PG),
-    wp PoisonSpec (debugFmt S) (Grew g) (GrewP (ε := Unit) g) g
-  | .mutex x, g => by simpa [debugFmt] using debugLeaf_poison x .excl g
-  | .rwlock x, g => by simpa [debugFmt] using debugLeaf_poison x .shared g
-  | .seq ss, g => by simpa [debugFmt] using debugFmtL_poison ss g
-  | .poisonable _ s, g => by simpa [debugFmt] using debugFmt_poison s g
+theorem debugFmt_poison (b : Option LockId) : ∀ (S : Shape) (g : PG),
+    wp PoisonSpec (debugFmt b S) (Grew g) (GrewP (ε := Unit) g) g
+  | .mutex x, g => by simpa [debugFmt] using debugLeaf_poison x .excl _ g
+  | .rwlock x, g => by simpa [debugFmt] using debugLeaf_poison x .shared _ g
+  | .seq ss, g => by simpa [debugFmt] using debugFmtL_poison b ss g
+  | .poisonable _ s, g => by simpa [debugFmt] using debugFmt_poison b s g
   | .boxed _, g => by simp only [debugFmt]; exact PG.Le.refl g
-  | .refc s, g => by simpa [debugFmt] using debugFmt_poison s g
-  | .retry s, g => by simpa [debugFmt] using debugFmt_poison s g
-  | .owned _ s, g => by simpa [debugFmt] using debugFmt_poison s g
-theorem debugFmtL_poison : ∀ (ss : List Shape) (g : PG),
-    wp PoisonSpec (debugFmtL ss) (Grew g) (GrewP (ε := Unit) g) g
+  | .refc s, g => by simpa [debugFmt] using debugFmt_poison b s g
+  | .retry s, g => by simpa [debugFmt] using debugFmt_poison b s g
+  | .owned _ s, g => by simpa [debugFmt] using debugFmt_poison b s g
+theorem debugFmtL_poison (b : Option LockId) : ∀ (ss : List Shape) (g : PG),
+    wp PoisonSpec (debugFmtL b ss) (Grew g) (GrewP (ε := Unit) g) g
   | [], g => by simp only [debugFmtL]; exact PG.Le.refl g
   | s :: ss, g => by
     simp only [debugFmtL]
     rw [wp_bind]
-    refine wp_mono PoisonSpec _ (debugFmt_poison s g) ?_ (fun _ _ h => h)
+    refine wp_mono PoisonSpec _ (debugFmt_poison b s g) ?_ (fun _ _ h => h)
     intro _ g1 hle
-    exact wp_grew_mono hle (debugFmtL_poison ss g1)
+    exact wp_grew_mono hle (debugFmtL_poison b ss g1)
 end
 
 theorem bodySteps_poison (C : Ctx) (S : Shape) (body : List BodyStep) (g : PG) :
@@ -171,12 +189,12 @@ theorem bodySteps_poison (C : Ctx) (S : Shape) (body : List BodyStep) (g : PG) :
     cases b with
     | write pos v => exact step _ (by trivial) _ (fun _ g1 _ => ih g1)
     | read pos => exact step _ (by trivial) _ (fun _ g1 _ => ih g1)
-    | dbg c =>
+    | dbg c bomb =>
       simp only [bodySteps]
       apply step _ (by trivial)
       intro _ g1 _
       rw [wp_bindX]
-      refine wp_mono PoisonSpec _ (debugFmt_poison _ g1) ?_ ?_
+      refine wp_mono PoisonSpec _ (debugFmt_poison _ _ g1) ?_ ?_
       · intro _ g2 hle
         apply pwp_ign _ _ _ _ _ (by trivial)
         intro _ g3 _ hle3 _
@@ -300,15 +318,6 @@ theorem readPoison_nonPoison (ps : List PoisonId) (b : Bool) : OpsIn nonPoisonOp
   induction ps generalizing b with
   | nil => exact .done _
   | cons p ps ih => exact .op _ _ trivial (fun _ => ih _)
-
-/-- the user-panic mark counts as a panic -/
-theorem pwp_userPanic (c : Resp → Prog ε α) (Q : α → PG → Prop) (E : ε → PG → Prop) (g : PG)
-    (h : ∀ g', g.Le g' → 0 < g'.panics → wp PoisonSpec (c .ok) Q E g') :
-    wp PoisonSpec (.op (.mark mkUserPanic) c) Q E g := by
-  refine ⟨trivial, fun r hr => ?_⟩
-  have : r = .ok := hr
-  subst this
-  exact h _ ⟨Nat.le_succ _, fun _ h => h⟩ (Nat.succ_pos _)
 
 /-! ### sessions -/
 
@@ -609,12 +618,12 @@ theorem stmt_poison (C : Ctx) (st : Stmt) (u : UserSt) (g : PG) :
     split
     · exact hmark _ _ _ (Or.inr trivial)
     · exact pwp_ign _ _ _ _ _ (by trivial) (fun _ _ _ _ _ => hmark _ _ _ (Or.inr trivial))
-  | dbg c =>
+  | dbg c bomb =>
     simp only [stmt]
     apply pwp_ign _ _ _ _ _ (by trivial)
     intro _ g1 _ _ _
     rw [wp_bindX]
-    refine wp_mono PoisonSpec _ (debugFmt_poison _ g1) ?_ ?_
+    refine wp_mono PoisonSpec _ (debugFmt_poison _ _ g1) ?_ ?_
     · intro _ g2 _
       exact pwp_ign _ _ _ _ _ (by trivial) (fun _ _ _ _ _ => hmark _ _ _ (Or.inr trivial))
     · intro _ g2 _
